@@ -7,7 +7,7 @@ The partial functions `pfs` are tasks with a scripted outcome (`ret v | raise e`
 environment.  asyncio code is atomic between awaits, so one model step is everything that happens between two quiescent states
 of the event loop:
 * `start …`   — the helper is called and the loop runs until everything is blocked (tasks created, the helper's own permit
-                released by `WithoutSemaphore.__aenter__`, the first tasks admitted by the semaphore);
+                released by `WithoutSemaphore.__aenter__`, the first tasks grantted by the semaphore);
 * `finish i`  — the gate of running task `i` opens: its body ends with its scripted outcome, `async with sema` releases the
                 permit, the semaphore wakes the next waiter, `asyncio.gather` / the pool react, the helper possibly returns;
 * `body`      — (`OnlineBoundedGather2` only) the body of the `async with pool:` block, which submitted every task and then
@@ -130,13 +130,13 @@ def slotOf : TSt → Res
   | .done r => r
   | _ => .cancelled
 
-/-- the semaphore admits waiting tasks in FIFO (= submission) order while permits are free:
+/-- the semaphore grants waiting tasks in FIFO (= submission) order while permits are free:
 `async with sema:` in `run_with_sema` / `run_and_cleanup` -/
-def admit : Nat → List TSt → Nat × List TSt
+def grant : Nat → List TSt → Nat × List TSt
   | 0, l => (0, l)
   | f + 1, [] => (f + 1, [])
-  | f + 1, .queued :: r => let p := admit f r; (p.1, .running :: p.2)
-  | f + 1, x :: r => let p := admit (f + 1) r; (p.1, x :: p.2)
+  | f + 1, .queued :: r => let p := grant f r; (p.1, .running :: p.2)
+  | f + 1, x :: r => let p := grant (f + 1) r; (p.1, x :: p.2)
 
 /-- `task.cancel()` on every unfinished task among the first `j`: a running body ends with `CancelledError` and releases its
 permit, a task still waiting for the semaphore ends without ever having held one.  Returns (permits released, new states). -/
@@ -153,7 +153,7 @@ def cancelAll (l : List TSt) : Nat × List TSt := cancelBelow l.length l
 returned or raised; under `bounded_gather` there is no such block -/
 def leave (s : State) : State :=
   match s.entry with
-  | .holdingPermit => let p := admit (s.free + 1) s.st; { s with st := p.2, free := p.1 }
+  | .holdingPermit => let p := grant (s.free + 1) s.st; { s with st := p.2, free := p.1 }
   | .boundedGather => s
 
 /-- the helper is called for a semaphore created with `n` permits and the loop runs to quiescence -/
@@ -163,30 +163,30 @@ def start (fl : Flavour) (en : Entry) (n : Nat) (outs : List Outcome) : State :=
   match fl with
   | .online =>
     -- `__aenter__` releases nothing: during the body the caller keeps its permit
-    let p := admit v0 q
+    let p := grant v0 q
     ⟨fl, en, outs, p.2, p.1, .active, none, 0⟩
   | _ =>
     -- `WithoutSemaphore.__aenter__`: `self._sema.release()`, then `await asyncio.gather(*tasks)`
     if outs.isEmpty then leave ⟨fl, en, outs, [], v0, .returned [], none, 0⟩     -- `gather()` of nothing returns `[]` at once
     else
-      let p := admit (v0 + 1) q
+      let p := grant (v0 + 1) q
       ⟨fl, en, outs, p.2, p.1, .active, none, 0⟩
 
 /-- the body of running task `i` ends with its scripted outcome, `async with sema` releases the permit and the semaphore wakes
 the next waiter -/
 def complete (s : State) (i : Nat) (o : Outcome) : State :=
-  let p := admit (s.free + 1) (s.st.set i (.done (resOf o)))
+  let p := grant (s.free + 1) (s.st.set i (.done (resOf o)))
   { s with st := p.2, free := p.1 }
 
-/-- `task.cancel()` on the unfinished tasks among the first `j`; their permits go back to the semaphore, which admits waiters -/
+/-- `task.cancel()` on the unfinished tasks among the first `j`; their permits go back to the semaphore, which grants waiters -/
 def cancelFirst (s : State) (j : Nat) : State :=
   let c := cancelBelow j s.st
-  let p := admit (s.free + c.1) c.2
+  let p := grant (s.free + c.1) c.2
   { s with st := p.2, free := p.1 }
 
 /-- `WithoutSemaphore.__aenter__`: `self._sema.release()` -/
 def releaseOwn (s : State) : State :=
-  let p := admit (s.free + 1) s.st
+  let p := grant (s.free + 1) s.st
   { s with st := p.2, free := p.1 }
 
 /-- online: `self._exception = e` (the pool is shut down) -/
